@@ -211,8 +211,9 @@ def _observe_group(case, paths, L):
     groups = []
     for k, g in res.items():
         groups.append({'key': [_enc_val(x) for x in k], 'ids': sorted(_id_of(fn) for _, _, fn in g)})
+    order = [min(g['ids']) if g['ids'] else -1 for g in groups]        # the OrderedDict's own order
     groups.sort(key=lambda g: g['ids'])
-    return {'groups': groups, 'w': _nwarn(ws)}
+    return {'groups': groups, 'w': _nwarn(ws), 'order': order}
 
 
 def _stack_summary(st):
@@ -327,7 +328,7 @@ def _cnats(l):
 
 
 BAD_CASE = ('{| c_group_by := []; c_close := []; c_files := []; c_lists := [{| p_order := []; p_warn := true; '
-            'p_obs := GOk [] 77%nat |}]; c_stacks := [] |}')
+            'p_obs := GOk [] 77%nat [] |}]; c_stacks := [] |}')
 
 
 def coq_case(case, obs):
@@ -340,7 +341,8 @@ def coq_case(case, obs):
         if 'err' in o:
             ob = '(GErr %s)' % _cerr(o['err'])
         else:
-            ob = '(GOk %s %s)' % (clist(cpair(clist(_cgval(x) for x in g['key']), _cnats(g['ids'])) for g in o['groups']), cnat(o['w']))
+            ob = '(GOk %s %s %s)' % (clist(cpair(clist(_cgval(x) for x in g['key']), _cnats(g['ids'])) for g in o['groups']), cnat(o['w']),
+                                     _cnats([x if x >= 0 else 99999 for x in o['order']]))
         lists.append('{| p_order := %s; p_warn := %s; p_obs := %s |}' % (_cnats(L['order']), cbool(L['warn']), ob))
     stacks = []
     for S, o in zip(case.get('stacks', []), obs['stacks']):
@@ -373,27 +375,66 @@ def _label(case, sp):
     return tuple(lab)
 
 
-def _key_matches(case, key, sp):
+def _dec_val(v):
+    """observed key entry -> a Python value (None / int / str / tuple of Fractions); anything else -> ('?', repr)"""
+    try:
+        if v is None:
+            return None
+        if isinstance(v, dict) and 'i' in v:
+            return int(v['i'])
+        if isinstance(v, dict) and 's' in v:
+            return str(v['s'])
+        if isinstance(v, dict) and 't' in v:
+            return tuple(Fraction(int(n), int(d)) for n, d in v['t'])
+    except Exception:
+        pass
+    return ('?', repr(v))
+
+
+def _key_mismatch(case, key, sp):
+    """None when entry i of the group key is the member file's own value of group_by[i] for every i (orientation
+    within 1e-4 when compared with tolerance, exactly otherwise); else a description of the first mismatch"""
     gb = case.get('group_by') or DEFAULT_GROUP
+    ct = case.get('close') if case.get('close') is not None else DEFAULT_CLOSE
     fld = {'SeriesInstanceUID': 'uid', 'SeriesNumber': 'num', 'ProtocolName': 'prot'}
-    if len(key) != len(gb):
-        return False
-    for k, v in zip(gb, key):
+    if not isinstance(key, (list, tuple)) or len(key) != len(gb):
+        return 'the key has %s entries for %d group_by keys' % (len(key) if isinstance(key, (list, tuple)) else '?', len(gb))
+    for i, (k, v) in enumerate(zip(gb, key)):
+        got = _dec_val(v)
         if k == 'ImageOrientationPatient':
-            want = sp.get('iop')
-            if want is None or v is None:
-                if not (want is None and v is None):
-                    return False
-                continue
-            got = [Fraction(int(n), int(d)) for n, d in v['t']]
-            if len(got) != len(want) or any(abs(g - Fraction(str(w))) > Fraction(1, 10000) for g, w in zip(got, want)):
-                return False
+            want = None if sp.get('iop') is None else tuple(Fraction(float(x)) for x in sp['iop'])
+            if want is None or got is None:
+                ok = want is None and got is None
+            elif not isinstance(got, tuple) or len(got) != len(want) or (got and got[0] == '?'):
+                ok = False
+            elif k in ct:
+                ok = all(abs(g - w) <= Fraction(1, 10000) for g, w in zip(got, want))
+            else:
+                ok = got == want
         else:
             want = sp.get(fld[k])
-            got = None if v is None else v.get('i', v.get('s'))
-            if want != got:
-                return False
-    return True
+            ok = (type(got) is type(want)) and got == want
+        if not ok:
+            return 'entry %d (%s) is %r, the file has %r' % (i, k, v, sp.get('iop') if k == 'ImageOrientationPatient' else sp.get(fld.get(k)))
+    return None
+
+
+def _order_problem(o):
+    """the groups must come in the sorted order of their keys (sorted(full_results.items()))"""
+    by_min = {min(g['ids']): tuple(_dec_val(x) for x in g['key']) for g in o['groups'] if g['ids']}
+    try:
+        keys = [by_min[m] for m in o.get('order', [])]
+    except KeyError:
+        return 'the order of the result does not name its groups: %s' % (o.get('order'),)
+    if len(keys) != len(o['groups']):
+        return 'the order of the result lists %d of %d groups' % (len(keys), len(o['groups']))
+    for a, b in zip(keys, keys[1:]):
+        try:
+            if not a < b:
+                return 'the groups are not in the sorted order of their keys: %r comes before %r' % (a, b)
+        except TypeError:
+            return None       # incomparable keys: outside what is judged
+    return None
 
 
 def _expected_rejects(case, S):
@@ -423,6 +464,13 @@ def _expected_rejects(case, S):
 
 
 def oracle(case, obs):
+    try:
+        return _oracle(case, obs)
+    except Exception as e:      # an observation the judging code cannot even read is not a result the property allows
+        return 'the result has an unexpected form (%s: %s): %s' % (type(e).__name__, e, json.dumps(obs, default=str)[:300])
+
+
+def _oracle(case, obs):
     if not isinstance(obs, dict) or 'crash' in obs:
         return None if not isinstance(obs, dict) else 'the runner crashed: %s %s' % (obs.get('crash'), str(obs.get('msg'))[:200])
     files = case['files']
@@ -466,8 +514,12 @@ def oracle(case, obs):
                 return 'list %d (%s): groups %s, but the files equal on every key (orientation within tolerance) are %s' % (n, L['order'], sorted(sets), want)
             for g in o['groups']:
                 for i in g['ids']:
-                    if not _key_matches(case, g['key'], files[i]):
-                        return 'list %d: group key %s is not the group-by values of its member %d' % (n, g['key'], i)
+                    mm = _key_mismatch(case, g['key'], files[i])
+                    if mm:
+                        return 'list %d (%s): group key %s is not the tuple of group-by values of its member %d: %s' % (n, L['order'], g['key'], i, mm)
+            op = _order_problem(o)
+            if op:
+                return 'list %d (%s): %s' % (n, L['order'], op)
         k = tuple(img_ids)
         if k in by_imgset and by_imgset[k][1] != sorted(sets):
             return 'lists %d and %d contain the same readable image files but are grouped differently: %s vs %s (orders %s / %s)' % (
@@ -629,13 +681,22 @@ def _gen_mix(rng, custom=False):
     case = {'kind': 'mix', 'files': files, 'lists': _lists_with_faults(rng, imgs, [f['id'] for f in faults], 1), 'stacks': []}
     if custom:
         case['kind'] = 'custom-keys'
-        gb, ct = rng.choice([
-            (['SeriesNumber', 'ProtocolName', 'ImageOrientationPatient'], []),
-            (['ProtocolName'], None),
-            (['ImageOrientationPatient', 'SeriesNumber'], None),
-            (['SeriesInstanceUID', 'SeriesNumber', 'ProtocolName', 'ImageOrientationPatient'], ['ImageOrientationPatient', 'SeriesNumber']),
-            (['ImageOrientationPatient'], ['ImageOrientationPatient']),
-        ])
+        if rng.random() < 0.25:
+            gb, ct = rng.choice([
+                (['SeriesNumber', 'ProtocolName', 'ImageOrientationPatient'], []),
+                (['ImageOrientationPatient', 'ProtocolName'], []),
+                (['SeriesInstanceUID', 'SeriesNumber', 'ProtocolName', 'ImageOrientationPatient'], ['ImageOrientationPatient', 'SeriesNumber']),
+                (['SeriesNumber', 'ImageOrientationPatient', 'ProtocolName'], ['ImageOrientationPatient', 'SeriesNumber']),
+                (['ImageOrientationPatient'], ['ImageOrientationPatient']),
+            ])
+        else:
+            # any ordering of any non-empty subset of the default keys; half of the time the tolerance-compared
+            # key comes before the exactly compared ones
+            gb = rng.sample(list(DEFAULT_GROUP), rng.choice([1, 2, 2, 3, 3, 4, 4]))
+            if 'ImageOrientationPatient' in gb and rng.random() < 0.5:
+                gb.remove('ImageOrientationPatient')
+                gb.insert(0, 'ImageOrientationPatient')
+            ct = None
         case['group_by'] = gb
         if ct is not None:
             case['close'] = ct
@@ -778,9 +839,9 @@ def gen_cases(rng, tier):
     out = []
     for i in range(n):
         r = rng.random()
-        if r < 0.45:
+        if r < 0.38:
             out.append(_gen_mix(rng))
-        elif r < 0.55:
+        elif r < 0.57:
             out.append(_gen_mix(rng, custom=True))
         elif r < 0.65:
             out.append(_gen_chain(rng))
